@@ -196,10 +196,10 @@ type X struct {
 // (the quick tier gives one Check at most 250 000 invocations - a rare, very long minimisation is then inconclusive
 // there and judged in the thorough tier, which allows 1 500 000)
 var maxInvsPerCheck = 1500000
+var maxWallPerCheck = 150 * time.Second // (quick tier: 45 s)
 
 const (
 	maxAcceptedPerCheck = 30000
-	maxWallPerCheck     = 150 * time.Second
 )
 
 // sampling is set while the harness itself draws examples from a generator (to calibrate thresholds): generator
